@@ -93,6 +93,12 @@ def main(argv=None):
             shutil.rmtree(scratch, ignore_errors=True)
 
 
+def serves(prop, props, unit):
+    """an obligation counts for the property it is tagged with; in a unit that serves C15, an obligation about what the emitted code computes (C01)
+    counts for C15 as well: a construct translated wrongly differs from its rewritten form translated rightly"""
+    return prop in props or (prop == "C15" and "C01" in props and "C15" in unit.props)
+
+
 def verdict(prop, tier, seed, mods, results, wall, write=True, mres=None, scratch=None):
     known, fixed = core.load_known()
     known_ids = {e["obligation"]: e for e in known}      # an obligation may serve several properties
@@ -104,14 +110,14 @@ def verdict(prop, tier, seed, mods, results, wall, write=True, mres=None, scratc
         if r.undecided:
             continue
         for o in r.obligations:
-            if prop in o["props"]:
+            if serves(prop, o["props"], r.unit):
                 key = o["id"] + (("@" + r.cfg) if r.cfg else "")
                 if o.get("bounded"):
                     bounded_obl[key] = dict(o, cfg=r.cfg)
                 else:
                     obligations[key] = dict(o, cfg=r.cfg)
         for f in r.failed:
-            if prop in f["props"]:
+            if serves(prop, f["props"], r.unit):
                 key = f["id"] + (("@" + r.cfg) if r.cfg else "")
                 failed[key] = f
                 if key not in obligations and key not in bounded_obl:   # side condition discovered by the verifier
@@ -121,7 +127,7 @@ def verdict(prop, tier, seed, mods, results, wall, write=True, mres=None, scratc
     for r in results:
         for oid in getattr(r, "timeouts", []) or []:
             key = oid + (("@" + r.cfg) if r.cfg else "")
-            if key in obligations and prop in obligations[key]["props"]:
+            if key in obligations:
                 del obligations[key]
                 timeouts.append((r.unit.name, r.cfg, oid))
     # implicit side conditions: each verus query (function / loop) that verified carries its
